@@ -14,6 +14,11 @@ use std::collections::HashMap;
 pub const IS_MODEL: bool = false;
 pub const MAXA: usize = 64;
 pub const MAXF: usize = 70;
+pub const PAY: usize = 40;
+static mut SNAPSHOT_PAYLOAD: bool = false;
+pub fn set_snapshot_payload(b: bool) {
+    unsafe { SNAPSHOT_PAYLOAD = b }
+}
 
 /// one transmission attempt as the recording kernel logs it
 #[derive(Clone, Copy)]
@@ -26,10 +31,11 @@ pub struct Att {
     pub nfds: usize,
     pub fds: [c_int; MAXF],
     pub ctl_ok: bool,
+    pub pay: [u8; PAY],
     pub ok: bool,
 }
 pub const A0: Att =
-    Att { fd: -1, hdr: 0, has_hdr: false, base: 0, len: 0, nfds: 0, fds: [-1; MAXF], ctl_ok: true, ok: false };
+    Att { fd: -1, hdr: 0, has_hdr: false, base: 0, len: 0, nfds: 0, fds: [-1; MAXF], ctl_ok: true, pay: [0; PAY], ok: false };
 static mut ATTS: Vec<Att> = Vec::new();
 static mut RECORD_ONLY: bool = false;
 static mut SEQ: i64 = 0;
@@ -219,6 +225,10 @@ unsafe fn record_attempt(mut a: Att) -> ssize_t {
     }
     let fail = i < 32 && (S.enobufs_mask >> i) & 1 == 1;
     a.ok = !fail;
+    if SNAPSHOT_PAYLOAD && a.len > 0 {
+        let n = a.len.min(PAY);
+        core::ptr::copy_nonoverlapping(a.base as *const u8, a.pay.as_mut_ptr(), n);
+    }
     ATTS.push(a);
     if fail {
         set_errno(libc::ENOBUFS);
